@@ -11,7 +11,7 @@
    Reverse scans are stated from an arbitrary start cursor: they return what lies strictly below it (with the
    empty cursor: nothing — the behaviour the repository's own tests fix; DESIGN.md S1). *)
 From ZV Require Import Common.Bytes Scan.Consts Scan.Model Scan.ProofsOrder Scan.ProofsIter Scan.ProofsRange Scan.Proofs
-     Scan.ProofsMerge Scan.ProofsCluster Scan.ProofsCursor.
+     Scan.ProofsMerge Scan.ProofsCluster Scan.ProofsB64 Scan.ProofsCursor.
 From Coq Require Import Sorting.Sorted ZArith Permutation.
 Open Scope N_scope.
 
@@ -275,21 +275,20 @@ Proof. exact merged_iterate. Qed.
 Print Assumptions C13_merged_scan.
 
 (* (11) the text of the merged cursor: what doMergeScan writes — base64( pid ':' base64(cursor) ';' ... ) —
-   is decoded by decodeScanCursor of the next request into the same table, partitions and cursors. base64 and
-   the decimal conversion are parameters; used of them: decoding inverts encoding, their output contains
-   neither ':' nor ';', base64 of a non-empty string is non-empty. *)
+   is decoded by decodeScanCursor of the next request into the same table, partitions and cursors; with the
+   base64 and decimal functions of the model (compared with the server's cursor text on every run), for
+   partition ids below 1024 (finite sweep of the decimal conversion) and cursors that are byte strings. *)
 Theorem C13_merged_cursor_roundtrip :
-  forall (b64 : bytes -> bytes) (b64dec : bytes -> option bytes) (itoa : nat -> bytes) (atoi : bytes -> option nat),
-    (forall x, b64dec (b64 x) = Some x) ->
-    (forall x, ~ In scan_node_sep (b64 x) /\ ~ In scan_cursor_sep (b64 x)) ->
-    (forall x, x <> [] -> b64 x <> []) ->
-    (forall p, atoi (itoa p) = Some p) ->
-    (forall p, ~ In scan_node_sep (itoa p) /\ ~ In scan_cursor_sep (itoa p)) ->
-    forall (table : bytes) (mc : mcursor),
-      table <> [] -> ~ In scan_node_sep table -> mc <> [] ->
-      decode_scan_cursor b64dec atoi (table ++ scan_node_sep :: encode_mcursor b64 itoa mc) = Ok (table, mc).
-Proof. exact mcursor_roundtrip. Qed.
+  forall (table : bytes) (mc : mcursor),
+    table <> [] -> ~ In scan_node_sep table -> mc <> [] ->
+    Forall (fun t => (fst t < 1024)%nat /\ bytes_ok (snd t) = true) mc ->
+    decode_scan_cursor b64dec atoi (table ++ scan_node_sep :: encode_mcursor b64enc itoa mc) = Ok (table, mc).
+Proof. exact real_mcursor_roundtrip. Qed.
 Print Assumptions C13_merged_cursor_roundtrip.
+
+Theorem C13_base64_roundtrip : forall l, bytes_ok l = true -> b64dec (b64enc l) = Some l.
+Proof. exact b64dec_enc. Qed.
+Print Assumptions C13_base64_roundtrip.
 
 (* the separator the server puts between table and cursor is the one the nodes split at *)
 Theorem C13_separators : scan_node_sep = key_sep /\ scan_node_sep <> scan_cursor_sep.
@@ -347,31 +346,10 @@ Example C13_ex_cluster :
   ([([[116;58;97]; [116;58;97;98]], [(0%nat, [97]); (1%nat, [97;98])]); ([[116;58;98]], [(0%nat, [98])]); ([], [])], Done).
 Proof. vm_compute. reflexivity. Qed.
 
-(* the hypotheses of (11) are satisfiable (by a toy encoding; the real ones are base64 and decimal digits) *)
-Example C13_ex_cursor_hypotheses :
-  exists (b64 : bytes -> bytes) (b64dec : bytes -> option bytes) (itoa : nat -> bytes) (atoi : bytes -> option nat),
-    (forall x, b64dec (b64 x) = Some x) /\
-    (forall x, ~ In scan_node_sep (b64 x) /\ ~ In scan_cursor_sep (b64 x)) /\
-    (forall x, x <> [] -> b64 x <> []) /\
-    (forall p, atoi (itoa p) = Some p) /\
-    (forall p, ~ In scan_node_sep (itoa p) /\ ~ In scan_cursor_sep (itoa p)).
-Proof.
-  exists (map (N.add 256)), (fun s => Some (map (fun b => b - 256) s)),
-         (fun p => repeat 48 (S p)), (fun s => Some (pred (length s))).
-  split; [|split; [|split; [|split]]].
-  - intro x. f_equal. rewrite map_map. rewrite <- (map_id x) at 2. apply map_ext. intro a. lia.
-  - intro x. split; intro H; apply in_map_iff in H; destruct H as [y [Hy _]];
-      unfold scan_node_sep, scan_cursor_sep in Hy; lia.
-  - intros x Hx. destruct x; [congruence|discriminate].
-  - intro p. now rewrite repeat_length.
-  - intro p. split; intro H; apply repeat_spec in H; discriminate.
-Qed.
-
-(* a KV key with the empty name "t:" (SET admits it): a forward SCAN from the empty cursor never returns it,
-   a reverse scan returns it last and then ends after |R|/COUNT calls (here 3/3 = 1) *)
-Example C13_ex_empty_key_name :
-  let db := [encode_kv_key [116;58]; encode_kv_key [116;58;97]; encode_kv_key [116;58;98]] in
-  iterate_keys mini_compile 5 db KV false [116] [] [] 3 = ([([[116;58;97]; [116;58;98]], [])], Done) /\
-  iterate_keys mini_compile 5 db KV true [116] [255] [] 3 =
-    ([([[116;58;98]; [116;58;97]; [116;58]], [])], Done).
-Proof. vm_compute. split; reflexivity. Qed.
+(* base64("hello") = "aGVsbG8=" ; the cursor of partitions 0 -> "a", 1 -> "ab" for table t *)
+Example C13_ex_base64 : b64enc [104;101;108;108;111] = [97;71;86;115;98;71;56;61].
+Proof. vm_compute. reflexivity. Qed.
+Example C13_ex_cursor_text :
+  decode_scan_cursor b64dec atoi ([116] ++ scan_node_sep :: encode_mcursor b64enc itoa [(0%nat, [97]); (1%nat, [97;98])])
+  = Ok ([116], [(0%nat, [97]); (1%nat, [97;98])]).
+Proof. vm_compute. reflexivity. Qed.
